@@ -1006,6 +1006,11 @@ def decode_bytes(b):
         elif used < r:
             comps.append(SL); used += 1
     idx = tuple(comps)
+    try:
+        np.empty(shape)[idx]
+    except IndexError:
+        # an integer drawn for axis k was shifted to another axis by an Ellipsis: 0 is valid on every axis
+        idx = tuple(0 if _is_int(e) else e for e in idx)
     if len(idx) == 1 and f.below(2):
         idx = idx[0]
     n = D * P * int(np.prod(shape, dtype=int))
